@@ -73,6 +73,16 @@ func (c *c08) Enabled() []seqx.Event {
 	for k := 1; k <= len(c.EstUP); k++ {
 		if c.Holder(k) {
 			ev = append(ev, nm(seqx.Ev("Mod", int64(k)), "Mod(s%d)", k), nm(seqx.Ev("Del", int64(k)), "Del(s%d)", k))
+			if ls := c.R.Live[c.SeidOf(k)]; ls != nil {
+				// the same Modification sent from an address other than the one the session's node associated from:
+				// A's sessions from A's IP address with another UDP port, B's sessions from A. Whatever the answer,
+				// it goes to the address the request came from
+				q := int64(PeerA2)
+				if ls.Peer != 0 {
+					q = 0
+				}
+				ev = append(ev, nm(seqx.Ev("Mod", int64(k), q), "Mod(s%d) from %s", k, []string{"A", "B", "C", "", "", "A:8806"}[q]))
+			}
 			if c.R.Live[c.SeidOf(k)] != nil {
 				// a Modification that go-upf does not answer: its Node ID IE does not decode; it also carries rules
 				ev = append(ev, nm(seqx.Ev("ModBadNode", int64(k)), "Mod(s%d, undecodable Node ID + Create FAR 3 + Remove FAR 1)", k))
@@ -341,6 +351,9 @@ func (c *c08) Apply(e seqx.Event) seqx.StepResult {
 		p := 0
 		if s != nil {
 			p = s.Peer
+		}
+		if e.Op == "Mod" && len(e.A) > 1 {
+			p = int(e.A[1]) // sent from another address than the owner's
 		}
 		seq := c.NextSeq(p)
 		isMod := strings.HasPrefix(e.Op, "Mod")
